@@ -75,10 +75,17 @@ func e2eCase(r *rng.R, dir string) []string {
 	strategy := []string{"median", "abs"}[r.Intn(2)]
 	p := float64(prcnt) / 100.0
 	var cut uint64
-	if strategy == "median" {
-		cut = profiler.CutOffMedian(oc.Mem, start, end, p)
+	cutRes := ""
+	if protect(func() {
+		if strategy == "median" {
+			cut = profiler.CutOffMedian(oc.Mem, start, end, p)
+		} else {
+			cut = profiler.CutOffAbsoluteValue(oc.Mem, start, end, p)
+		}
+	}) {
+		cutRes = "!"
 	} else {
-		cut = profiler.CutOffAbsoluteValue(oc.Mem, start, end, p)
+		cutRes = fmt.Sprintf("%d", cut)
 	}
 	vals := make([]byte, n)
 	for i := 0; i < n; i++ {
@@ -138,7 +145,7 @@ func e2eCase(r *rng.R, dir string) []string {
 	}
 	os.Remove(marker)
 	count("e2e.profile." + dumpKind)
-	lines = append(lines, fmt.Sprintf("report %s %d %04x | %s | %s | %s => %d %s", strategy, prcnt, start, strings.Join(raws, ","), hex.EncodeToString(vals), labReq, cut, out))
+	lines = append(lines, fmt.Sprintf("report %s %d %04x | %s | %s | %s => %s %s", strategy, prcnt, start, strings.Join(raws, ","), hex.EncodeToString(vals), labReq, cutRes, out))
 
 	// ---- a dump specification that must be rejected before anything runs
 	if trap {
